@@ -310,6 +310,18 @@ def std_transfer(I, fr, t, c, pth):
             fr.storev(dest, Int(int((o.tag == 'some') == (m == 'is_some')), 1))
             return True
 
+    # ------------------------------------------------------------------ equality of fieldless enum values
+    if trait == 'std::cmp::PartialEq' and name in ('eq', 'ne') and len(args) == 2:
+        a, b = fr.deref_operand(args[0]), fr.deref_operand(args[1])
+        for _ in range(4):
+            if isinstance(a, Ref):
+                a = fr._project(fr.store.get(a.root, TOP), a.proj)
+            if isinstance(b, Ref):
+                b = fr._project(fr.store.get(b.root, TOP), b.proj)
+        if isinstance(a, Agg) and isinstance(b, Agg) and a.kind and b.kind and a.kind[0] == b.kind[0] and not a.items and not b.items and isinstance(a.kind[1], str):
+            fr.storev(dest, Int(int((a.kind[1] == b.kind[1]) == (name == 'eq')), 1))
+            return True
+
     # ------------------------------------------------------------------ integers
     if (d in ('std::cmp::min', 'std::cmp::max') or (trait == 'std::cmp::Ord' and name in ('min', 'max'))) and len(args) == 2:
         a, b = as_int(fr.operand(args[0])), as_int(fr.operand(args[1]))
